@@ -20,7 +20,8 @@ from vf.oracles.qref import q_ref
 LEVEL = "exploration"
 RULE = (
     "databases of 40..150 target proteins with shared peptides, subset proteins and planted anagram peptides, "
-    "mirrored decoys, FASTA entry order as generated / decoys shuffled / everything shuffled; peptide tables "
+    "mirrored decoys, UniProt-style or short gene-like names (many starting with letters of the decoy prefix), prefixes "
+    "decoy_/DECOY_/rev_, FASTA entry order as generated / decoys shuffled / everything shuffled; peptide tables "
     "with random scores (tie-free and tie-heavy), modification notations ([+15.99], (ox), lower-case letters), "
     "flanks (K.PEP.A, -.PEP.-), shared and (<2%) unknown peptides; direct: picked_protein(); files: "
     "assign_confidence(proteins=...) outputs incl. protein q-values. Non-trivial = >=1 pair in which both the "
@@ -52,7 +53,8 @@ def pair_key(group, prefix):
 
 def build_db(rng, d, order, nmin=40):
     db = prot.protein_db(rng, n_prot=int(rng.integers(nmin, 150)), anagrams=int(rng.integers(0, 8)),
-                          equal_frac=float(rng.choice([0.0, 0.1])))
+                          equal_frac=float(rng.choice([0.0, 0.1])), naming=str(rng.choice(["uniprot", "gene"])),
+                          prefix=str(rng.choice(["decoy_", "DECOY_", "rev_"])))
     nt = len(db["targets"])
     idx = list(range(2 * nt))
     if order == "decoys_shuffled":
@@ -129,7 +131,7 @@ def run_direct(case):
     res = Result(case)
     with core.scratch("c15") as d:
         db, fa = build_db(rng, d, case["order"])
-        c = core.Call(mokapot.read_fasta, str(fa), missed_cleavages=0, min_length=6)
+        c = core.Call(mokapot.read_fasta, str(fa), missed_cleavages=0, min_length=6, decoy_prefix=db["prefix"])
         if not c.ok:
             res.violate("crash", c.sig + "/read_fasta", msg=c.info["msg"])
             return res
@@ -194,7 +196,7 @@ def run_files(case):
     res = Result(case)
     with core.scratch("c15f") as d:
         db, fa = build_db(rng, d, case["order"], nmin=90)
-        proteins = mokapot.read_fasta(str(fa), missed_cleavages=0, min_length=6)
+        proteins = mokapot.read_fasta(str(fa), missed_cleavages=0, min_length=6, decoy_prefix=db["prefix"])
         tab = prot.psm_table_for_db(rng, db, n_spectra=int(rng.integers(500, 900)), styles=("plain", "mod_sq", "flank", "mod_par", "mod_two", "mod_flank"),
                                     unknown_frac=0.005, sep=1.0)
         path = psm.write_parquet(tab, d / "t.parquet", row_group_size=101) if case["fmt"] == "parquet" else psm.write_pin(tab, d / "t.pin")
